@@ -541,38 +541,23 @@ func c08CacheCoherence(c *Ctx) {
 				c.viol("cache-coherence", construct, p.Pos(f.Pos()), "the owner of a cache has no RevertHead method that could invalidate it")
 				continue
 			}
-			ok := false
-			var scope []*ssa.Function
-			for _, g := range p.Reachable([]*ssa.Function{rv}, func(caller, callee *ssa.Function) bool { return pkgRelOf(callee) != pkgRelOf(rv) }).Funcs() {
-				scope = append(scope, g)
-			}
-			scope = append(scope, withAnons(rv)...)
-			for _, g := range scope {
-				for _, s := range sitesOf(g) {
-					nm := ""
-					if s.Callee != nil {
-						nm = s.Callee.Name()
-					} else if s.Method != nil {
-						nm = s.Method.Name()
-					} else if b, isB := s.Instr.Common().Value.(*ssa.Builtin); isB {
-						nm = b.Name()
-					}
-					switch nm {
-					case "Reset", "Purge", "Remove", "Clear", "clear", "Delete", "delete":
-					default:
-						continue
-					}
-					for _, a := range s.Args() {
-						if at := term(a); strings.HasSuffix(at, "."+f.Name()) {
-							ok = true
+			// whole invalidation on every path: some call that drops the whole cache (Reset / Purge / Clear / clear(m) / a fresh
+			// value stored into the field) lies on every path from the entry of the revert to each of its returns — directly or
+			// inside a same-package helper that itself does so on every path. Evicting selected keys is not accepted: whether the
+			// evicted keys cover every entry the revert makes stale is a value question (seeded changes C03-G, C08-G, C09-H all
+			// evict the wrong or too few keys and keep a conditional whole reset on some error path).
+			ok := c08AlwaysResets(p, rv, f.Name(), 0, map[*ssa.Function]bool{})
+			selective := ""
+			if !ok {
+				for _, g := range append(p.Reachable([]*ssa.Function{rv}, func(caller, callee *ssa.Function) bool { return pkgRelOf(callee) != pkgRelOf(rv) }).Funcs(), withAnons(rv)...) {
+					for _, s2 := range sitesOf(g) {
+						if c08TouchesField(s2, f.Name(), []string{"Remove", "Delete", "delete", "Reset", "Purge", "Clear", "clear"}) {
+							selective = " (only a selective or conditional eviction was found at " + p.Pos(s2.Pos()) + ")"
 						}
-					}
-					if s.Recv != nil && strings.HasSuffix(term(s.Recv), "."+f.Name()) {
-						ok = true
 					}
 				}
 			}
-			c.check(ok, "cache-coherence", construct, p.Pos(f.Pos()), "invalidated in RevertHead", "a cache held by the chain object is not invalidated when the head is reverted: entries filled before a reorg keep answering for blocks the node no longer holds (a reverted hash keeps resolving to its old height)")
+			c.check(ok, "cache-coherence", construct, p.Pos(f.Pos()), "dropped as a whole on every path of the revert", "a cache held by the chain object is not dropped as a whole on every path of the revert"+selective+": entries filled before a reorg keep answering for blocks the node no longer holds (a reverted hash keeps resolving to its old height)")
 		}
 	}
 	if n < 1 {
@@ -617,4 +602,89 @@ func l1HandlerIndexEveryEntry(c *Ctx, rule string) {
 	if n < 2 {
 		c.und(rule, "L1 handler index writers", "", fmt.Sprintf("only %d looped Write/DeleteL1HandlerTxnHashByMsgHash sites found", n))
 	}
+}
+
+
+// c08TouchesField: the call's receiver or an argument is (a load of) the field named fld, and the callee is one of names.
+func c08TouchesField(s Site, fld string, names []string) bool {
+	nm := ""
+	if s.Callee != nil {
+		nm = s.Callee.Name()
+	} else if s.Method != nil {
+		nm = s.Method.Name()
+	} else if b, isB := s.Instr.Common().Value.(*ssa.Builtin); isB {
+		nm = b.Name()
+	}
+	hit := false
+	for _, n := range names {
+		if n == nm {
+			hit = true
+		}
+	}
+	if !hit {
+		return false
+	}
+	for _, a := range s.Args() {
+		if at := term(a); strings.HasSuffix(at, "."+fld) || strings.HasSuffix(at, "."+fld+")") || strings.HasSuffix(at, "&"+fld) {
+			return true
+		}
+	}
+	if s.Recv != nil && strings.HasSuffix(term(s.Recv), "."+fld) {
+		return true
+	}
+	return false
+}
+
+// c08AlwaysResets: every path from fn's entry to a return passes a whole reset of the cache field fld.
+func c08AlwaysResets(p *Prog, fn *ssa.Function, fld string, depth int, busy map[*ssa.Function]bool) bool {
+	if fn == nil || len(fn.Blocks) == 0 || depth > 3 || busy[fn] {
+		return false
+	}
+	busy[fn] = true
+	defer delete(busy, fn)
+	pass := map[*ssa.BasicBlock]bool{}
+	for _, s := range sitesOf(fn) {
+		if c08TouchesField(s, fld, []string{"Reset", "Purge", "Clear", "clear"}) && len(s.Args()) <= 1 {
+			pass[s.Block()] = true
+			continue
+		}
+		if s.Callee != nil && pkgRelOf(s.Callee) == pkgRelOf(fn) && s.Callee != fn {
+			if c08AlwaysResets(p, s.Callee, fld, depth+1, busy) {
+				pass[s.Block()] = true
+			}
+		}
+	}
+	// a fresh value stored into the field
+	allInstrsOne(fn, func(in ssa.Instruction) {
+		if st, ok := in.(*ssa.Store); ok {
+			if fa, ok := st.Addr.(*ssa.FieldAddr); ok && fieldName(fa.X.Type(), fa.Field) == fld {
+				switch v := st.Val.(type) {
+				case *ssa.MakeMap:
+					pass[in.Block()] = true
+				case *ssa.Call:
+					if cal := v.Call.StaticCallee(); cal != nil && (strings.HasPrefix(cal.Name(), "New") || strings.HasPrefix(cal.Name(), "new")) {
+						pass[in.Block()] = true
+					}
+				}
+			}
+		}
+	})
+	if len(pass) == 0 {
+		return false
+	}
+	seen := map[*ssa.BasicBlock]bool{}
+	q := []*ssa.BasicBlock{fn.Blocks[0]}
+	for len(q) > 0 {
+		b := q[0]
+		q = q[1:]
+		if seen[b] || pass[b] {
+			continue
+		}
+		seen[b] = true
+		if exitKind(b) == "return" {
+			return false
+		}
+		q = append(q, b.Succs...)
+	}
+	return true
 }
